@@ -57,7 +57,7 @@ class Monitor:
 
 
 class Setup:
-    def __init__(self, mon, rng, idx, world=None):
+    def __init__(self, mon, rng, idx, world=None, period=None):
         from skepticoin.networking.disk_interface import DiskInterface
         from skepticoin.blockstore import BlockStore
         import skepticoin.blockstore as bs
@@ -65,9 +65,23 @@ class Setup:
         import skepticoin.wallet as wm
         self.mon, self.rng, self.mining = mon, rng, mining
         if world is None:
-            world = gen.World(rng, nkeys=8)
-            world.grow(rng.choice([4, 8, 14]), rng, tx_prob=0.6)
+            if period:
+                # configuration lane: short retarget period with the documented timespan, widely spaced timestamps, so that
+                # candidates at retarget boundaries are assembled by the miner front end (steer spacing to keep targets minable)
+                world = gen.World(rng, nkeys=8, params=ref.Params(period=period))
+                base = ref.RETARGET_TIMESPAN // period
+                for _ in range(rng.choice([period - 2, period - 1, 2 * period - 2, 2 * period - 1, period + 1])):
+                    pid = world.cs.current_chain_hash
+                    parent = world.chain.blocks[pid]
+                    t = int.from_bytes(parent.target, "big")
+                    dt_ = base * 2 if t < (1 << 246) else (base // 2 if t > (1 << 251) else rng.choice([base, base + 7, base - 3]))
+                    rb, real = world.assemble(pid, [], parent.ts + dt_, rng.choice(world.keys)[1])
+                    world.accept(rb, real, now=rb.ts)
+            else:
+                world = gen.World(rng, nkeys=8)
+                world.grow(rng.choice([4, 8, 14]), rng, tx_prob=0.6)
         self.world = world
+        self.period = period
         self.path = os.path.join(os.getcwd(), "miner-%d.db" % idx)
         if os.path.exists(self.path):
             os.remove(self.path)
@@ -148,6 +162,9 @@ class Setup:
         start = self.rng.randrange(1 << 31)
         for k in range(20000):
             nonce = (start + k) & 0xFFFFFFFF
+            if k % 37 == 36:
+                self.net.clock.t += 1          # time passes while the miner works on one head
+                c["clock_ticks_while_mining"] = c.get("clock_ticks_while_mining", 0) + 1
             if self.rng.random() < 0.02:
                 # transactions keep arriving while the miner works on this head (before the next candidate is requested)
                 c["pool_additions_while_mining"] = c.get("pool_additions_while_mining", 0) + self.fill_pool(self.rng.choice([1, 1, 2]))
@@ -300,8 +317,12 @@ class Setup:
         os.remove(self.path)
 
 
-def run_setup(mon, rng, idx, nfound):
-    st = Setup(mon, rng, idx)
+def run_setup(mon, rng, idx, nfound, period=None):
+    if period:
+        env.set_retarget(period)
+    else:
+        env.set_retarget(ref.RETARGET_PERIOD)
+    st = Setup(mon, rng, idx, period=period)
     mon.c["setups"] += 1
     world = st.world
     reorg = len(world.chain.tips()) > 1
@@ -310,6 +331,11 @@ def run_setup(mon, rng, idx, nfound):
         head = world.chain.blocks[st.node.lp.chain_manager.coinstate.current_chain_hash]
         # [domain] clocks from head.ts - 29 upwards (see DESIGN: at head.ts - 30 no valid child exists)
         st.net.clock.t = head.ts + rng.choice([-29, -10, -1, 0, 1, 2, 60, 120, 100000])
+        if period:
+            base = ref.RETARGET_TIMESPAN // period
+            st.net.clock.t = head.ts + rng.choice([base, base - 5, base + 11, base // 2 + 1])
+            if (head.height + 1) % period == 0:
+                mon.c["found_at_retarget_boundary_attempts"] = mon.c.get("found_at_retarget_boundary_attempts", 0) + 1
         st.fill_pool(rng.choice([0, 0, 1, 3, 8, 30]))
         ok = st.mine_one({"setup": idx, "round": j})
         if ok and reorg:
@@ -351,6 +377,9 @@ def run_shard(spec):
         quick = spec["tier"] == "quick"
         for j in range(4 if quick else 90):
             run_setup(mon, rng, j, rng.choice([2, 3, 4]))
+        for j in range(2 if quick else 40):
+            run_setup(mon, rng, 1000 + j, rng.choice([3, 4]), period=rng.choice([4, 5, 6]))
+        env.set_retarget(ref.RETARGET_PERIOD)
     return {"evaluations": mon.c["candidates"], "digests": sorted(mon.digests), "violations": mon.viol, "counters": mon.c,
             "samples": mon.samples}
 
@@ -368,6 +397,8 @@ def finalize(m, tier):
                    ("clock_before_head_timestamp", c.get("clock_before_head_timestamp", 0), 10),
                    ("consecutive_found_blocks", c.get("consecutive_found_blocks", 0), 30),
                    ("pool_additions_while_mining", c.get("pool_additions_while_mining", 0), 50),
-                   ("invalid_peer_blocks_after_found_block", c.get("invalid_peer_blocks_after_found_block", 0), 40)],
+                   ("invalid_peer_blocks_after_found_block", c.get("invalid_peer_blocks_after_found_block", 0), 40),
+                   ("found_at_retarget_boundary_attempts", c.get("found_at_retarget_boundary_attempts", 0), 15),
+                   ("clock_ticks_while_mining", c.get("clock_ticks_while_mining", 0), 300)],
         "extra": {},
     }
